@@ -13,7 +13,7 @@ using verif::Case;
 namespace va = verif::alloc;
 
 const verif::Info verif_info = {
-    "C05", 480,
+    "C05", 400,
     "histories of 1..80 operations (default/ptr+len/count+fill/copy/move construction, copy and move assignment incl. self-assignment, "
     "allocate(n)+write, allocate(n,fill), clear, destroy, reads) over a pool of 6 individually heap-placed ST::buffer<T>, T in "
     "{char,wchar_t,char16_t,char32_t}; lengths from {0,1,L-2,L-1,L,L+1,2L,100} with L the observed in-object limit. Oracle: per-slot "
@@ -82,6 +82,7 @@ template <class T> struct Pool {
     std::string log;
     bool want_log;
     bool ext = false;
+    bool discard = false;
     size_t L = 0;    // observed limit: smallest length whose storage leaves the object
 
     B *place(int i) { s[i].raw = ::malloc(sizeof(B)); memset(s[i].raw, 0xEE, sizeof(B)); return static_cast<B *>(s[i].raw); }
@@ -495,6 +496,8 @@ template <class T> struct Pool {
                           if (cross) { pending = true; s[i].touched_by_move = true; }
                           lab(c, "assign-from-temporary"); note("%d=tmp(%zu); ", i, v.size()); break; }
                 }
+            } catch (const verif::budget_exceeded &) {
+                discard = true; return std::string();      // a resource bound of the harness, never a verdict (sizes here are <= 100 elements, so this is not expected)
             } catch (...) {
                 return "step " + verif::unum(k) + ": unexpected " + verif::describe_current_exception();
             }
@@ -520,6 +523,7 @@ template <class T> int run_type(verif::Reader &r, Case &c, const char *tname, bo
     std::string why = p.run(r, c);
     if (c.want_text) c.text = std::string("C05<") + tname + (ext ? ",ext" : "") + "> L=" + verif::unum(p.L) + "  " + p.log;
     va::reset();
+    if (p.discard) return verif::CASE_DISCARD;
     if (!why.empty()) return c.fail(why);
     return verif::CASE_OK;
 }
